@@ -38,7 +38,8 @@ Inductive stmt :=
 | SSame (body : list stmt)                        (* ScopedEvalContextModifier: body compiled in the very same frame
                                                      (the autoescape tag wraps it in a Scope: SInline false [SSame b]) *)
 | SMacro (params : list name) (body : list stmt)
-| SCallBlock (params : list name) (kws : list name) (body : list stmt)
+| SCallBlock (params : list name) (uses : list name) (kws : list name) (body : list stmt)
+      (* {% call(params) f(uses…, kws…=1) %}body{% endcall %}: the call expression loads [uses] in the enclosing frame *)
 | SBlock (body : list stmt).                      (* {% block %}: compiled into its own function *)
 
 Inductive py :=
@@ -118,7 +119,8 @@ Fixpoint uscan (s : stmt) (u : ustate) {struct s} : ustate :=
   | SFor _ b e => u_scope (uscans e) (u_scope (uscans b) u)
   | SInline true b => u_scope (uscans b) u
   | SInline false b | SSame b => uscans b u
-  | SMacro ps b | SCallBlock ps _ b => u_scope (fun v => uscans b (u_stores ps v)) u
+  | SMacro ps b => u_scope (fun v => uscans b (u_stores ps v)) u
+  | SCallBlock ps us _ b => u_scope (fun v => uscans b (u_stores ps v)) (fold_left (fun u n => u_load n u) us u)
   | SBlock _ => u
   | _ => u
   end.
@@ -177,7 +179,7 @@ Section Gen.
           | SyntaxErr => SyntaxErr
           end
         else SyntaxErr
-    | SCallBlock ps kws b =>
+    | SCallBlock ps _ kws b =>
         if nodupb ps then
           match gens false false false b, gen_call true lf bf kws with
           | Ok pb, Ok pc => Ok (PDef (ps ++ specials ps b) pb :: pc)
